@@ -40,17 +40,18 @@ type vAbGroup struct {
 }
 
 type vAbScript struct {
-	groups  []vAbGroup
-	nprod   int
-	fpp     int // frames per packet
-	bits    int // 16 or 32
-	nSample int // packets per group delivered in the sampling phase (global indices 0..nSample-1)
-	nScript int // global packet indices nSample .. nSample+nScript-1 are scripted
-	ticks   [][]int
-	rescale bool
-	unwrap  bool // phase unwrapping on (with rescaling); such scripts lose no packet
-	uopts   AbacoUnwrapOptions
-	lowbits bool // 32-bit payloads carry non-zero low 16 bits (non-negative values only)
+	groups    []vAbGroup
+	nprod     int
+	fpp       int // frames per packet
+	bits      int // 16 or 32
+	nSample   int // packets per group delivered in the sampling phase (global indices 0..nSample-1)
+	nScript   int // global packet indices nSample .. nSample+nScript-1 are scripted
+	ticks     [][]int
+	rescale   bool
+	stampMode int  // 0: every packet has a timestamp, 1: every other one, 2: none
+	unwrap    bool // phase unwrapping on (with rescaling); such scripts lose no packet
+	uopts     AbacoUnwrapOptions
+	lowbits   bool // 32-bit payloads carry non-zero low 16 bits (non-negative values only)
 }
 
 func (s *vAbScript) sampledOf(gi int) int {
@@ -122,7 +123,20 @@ func (run *vAbRun) makePacket(gi int, idx int) *packets.Packet {
 	p := packets.NewPacket(10, uint32(100+gi), sn-1, g.first)
 	// timestamps: 1000 counts per frame at 1e8 counts/s -> 1e5 frames/s, same for all groups
 	ts := &packets.PacketTimestamp{T: uint64(1000000 + idx*s.fpp*1000), Rate: 1e8}
-	p.SetTimestamp(ts)
+	stamp := true
+	switch s.stampMode {
+	case 1: // sparse: while sampling, every packet but a group's last sampled one (when it has at least three); in the run every other packet
+		if idx < s.sampledOf(gi) {
+			stamp = !(s.sampledOf(gi) >= 3 && idx == s.sampledOf(gi)-1)
+		} else {
+			stamp = idx%2 == 0
+		}
+	case 2: // none (single-group scripts only)
+		stamp = false
+	}
+	if stamp {
+		p.SetTimestamp(ts)
+	}
 	n := s.fpp * g.nchan
 	var err error
 	if s.bits == 16 {
@@ -438,6 +452,14 @@ func vGenAbScript(c *vCase) *vAbScript {
 			}
 		}
 		s.ticks = append(s.ticks, row)
+	}
+	if c.Idx%5 == 2 {
+		// timestamps on every other packet only; on none at all only with a single group (the groups' sequence numbers are
+		// related to each other through the timestamps, so several unstamped groups cannot be aligned by anyone)
+		s.stampMode = 1
+		if len(s.groups) == 1 {
+			s.stampMode = 1 + c.Idx/5%2
+		}
 	}
 	if c.Idx%6 == 4 || vAbForceUnwrap {
 		// phase unwrapping through the device path (C12's callers): rescaling and unwrapping on, no packet lost (a filler's value
@@ -871,7 +893,7 @@ func init() {
 		Run: vRunAbaco,
 		Meta: vMeta{Level: "exploration",
 			Rule: "case = script (1-4 channel groups on 1-3 producers, 1-8 channels each, 1-32 frames per packet, int16/int32 payloads, per-group sequence-number bases, per-group loss pattern none/isolated/bursts/long run/first packets/dense, per-tick per-group batching incl. empty ticks and lagging groups), executed 3 (quick) or 6 (thorough) times because the reader iterates a Go map; the real Start..CoreLoop pipeline runs against scripted PacketProducers and every block handed to ProcessSegments is compared with the per-channel reference stream (delivered samples, frames-per-packet filler per lost packet), equal lengths, contiguous frame numbers and the dropped-frame total; non-trivial = every executed script; additions: external-trigger packets mixed into the stream (1 case in 4), a slow consumer (1 in 3), and a quiescence phase at the end (no more packets; after six empty ticks nothing complete may be held back)",
-			Assumptions: []string{"all groups use the same frames per packet (the code panics otherwise and says so)", "packets carry timestamps (the sample rate is derived from them)", "the run continues the sequence numbers seen while sampling",
+			Assumptions: []string{"all groups use the same frames per packet (the code panics otherwise and says so)", "every group has at least two time-stamped packets while sampling (the sample rate and the relation between the groups' sequence numbers are derived from them; the code panics if groups disagree on the rate); 1 case in 5 stamps only every other packet of the run and leaves a group's last sampled packet unstamped; streams without any timestamp only with a single group", "the run continues the sequence numbers seen while sampling",
 				"filler values are not constrained, only their count", "dropped frames are counted per group (two groups losing one packet each = 2 x frames per packet)"},
 			Guards: map[string]map[string]int{
 				"quick":    {"runs": 200, "samples_checked": 100000, "loss_after_leftover": 50, "multi_group_blocks": 2000, "loss_at_tick_edge": 50, "filler_frames_emitted": 2000, "ticks_bailed_out": 200},
